@@ -20,7 +20,7 @@ TRACK = 'track::sub::Track'
 def run(ctx, R, tier):
     F = ctx.facts('default')
     from ..enginea import run_singular_only
-    run_singular_only(R, F, lambda fn: 'track::sub' in fn or 'info::' in fn or 'glam::' in fn or 'listener' in fn, floor=5)
+    run_singular_only(R, F, lambda fn: 'track::sub' in fn or 'info::' in fn or 'glam::' in fn or 'listener' in fn, floor=4)
     rigid(F, R)
     tb = F.body(TRACK + '::process')
     if not R.check(tb is not None, 'B.C15.nolistener', 'anchor', 'Track::process not found'):
